@@ -55,6 +55,12 @@ class CompositeSystemCaches(E2Contract):
 
     def run(self, W, cfg, inp):
         hs, vec, kmat = inp["hs"], inp["vec"], inp["kmat"]
+        # the very first system of this interpreter to build tables is ANOTHER one (another basis): instances must share nothing
+        other = make_csys(W, cfg, "comp") if cfg == "1q" else make_csys(W, "1q")
+        n_other = other.dim ** 2
+        conversions(W, other, W.np.eye(n_other), W.np.ones(n_other), W.np.eye(n_other - 1, dtype=W.np.complex128))
+        second = make_csys(W, cfg)
+        choi_second = W.mod("quara.objects.gate").to_choi_from_hs(second, hs)
         fresh = make_csys(W, cfg)
         r_fresh = conversions(W, fresh, hs, vec, kmat)                 # tables built on demand, in this order
         r_again = conversions(W, fresh, hs, vec, kmat)                 # every table already built
@@ -74,10 +80,14 @@ class CompositeSystemCaches(E2Contract):
             ta, tb = getattr(a, name), getattr(b, name)
             out["tables_equal_fresh"].append(_table_equal(W, ta, tb))
         out["reverse_order"] = conversions(W, a, hs, vec, kmat)
+        out["choi_second"] = choi_second
+        out["choi_spec"] = W.S.choi_from_hs(second, hs)
         return out
 
     def post(self, W, cfg, inp, out):
         cl = [eq("built==first-use", out["again"], out["fresh"], "results with all tables built == results that built them on demand"),
+              eq("independent-of-other-systems", out["choi_second"], out["choi_spec"],
+                 "a system whose tables are built after ANOTHER CompositeSystem (another basis) built its own still converts by its own basis (Choi == defining formula)"),
               eq("construction-order-irrelevant", out["reverse_order"], out["fresh"], "building the tables in another order changes nothing"),
               eq("table==table-of-a-fresh-system", out["tables_equal_fresh"], [True] * len(out["tables_equal_fresh"]),
                  "a built table equals the table of a fresh system (representation invariant: None or spec(basis))")]
